@@ -484,7 +484,7 @@ class DependsWorld:
         hows = [('any', 3), ('equal', 2), ('first', 1.5), ('later', 2)]
         for _ in range(n_ops):
             k = weighted(rng, [('attach', 6), ('detach', 1.0), ('leaf', 6), ('leaf2', 1.5), ('swap2', 2 if len(slots) > 1 else 0), ('own', 0.7),
-                               ('subbatch', 1.2), ('swap_twice', 1.0),
+                               ('subbatch', 1.2), ('swap_twice', 1.0), ('batch_leaf', 1.2),
                                ('drain', 1.0 if any(m.get('async') for m in methods) else 0)])
             if k == 'drain':
                 ops.append({'op': 'drain'})
@@ -493,6 +493,9 @@ class DependsWorld:
                             'n2': rng.randrange(cfg['pool']), 'how1': weighted(rng, hows), 'how2': weighted(rng, [('equal', 3), ('any', 1), ('first', 1)]),
                             'back': rng.random() < 0.35, 'poke': rng.choice([None, None] + list(leafs)), 'once': rng.random() < 0.2,
                             'poke_new': rng.choice([None] + list(leafs))})
+            elif k == 'batch_leaf':
+                ops.append({'op': 'batch_leaf', 'variant': rng.choice(['mid', 'back', 'deep', 'deep']), 'at': rng.randint(0, cfg['pool']),
+                            'slot': rng.choice(slots), 'n1': rng.randrange(cfg['pool']), 'n2': rng.randrange(cfg['pool']), 'pi': rng.randrange(6)})
             elif k == 'subbatch':
                 ops.append({'op': 'subbatch', 'n': rng.randrange(cfg['pool']), 'p': rng.choice(leafs), 'at': rng.randint(0, cfg['pool']),
                             'slot': rng.choice(slots), 'n2': rng.randrange(cfg['pool']), 'how': weighted(rng, [('equal', 4), ('any', 1), ('first', 1)])})
@@ -783,6 +786,81 @@ class DependsWorld:
                         poked_detached = True
                         out.stats['probe.detached_node_poked'] += 1
                     desc = f"{k} N{n} {vals}"
+                elif k == 'batch_leaf':
+                    # inside a batch on the holder: a slot is replaced (announced when the batch ends) and a leaf of the NEW object
+                    # is assigned. For the object that declares the methods the dependencies follow at once (the leaf change is
+                    # announced immediately: 'mid' = the slot is then replaced again, 'back' = the leaf is set back to what was
+                    # shown before); below it they follow when the batch ends ('deep': the leaf change is part of the replacement).
+                    # The calls are those of a method that is told of every change of what it sees, once.
+                    variant = op.get('variant', 'mid')
+                    h = holder(op['at'])
+                    sl = op.get('slot', 'sub')
+                    if sl not in SLOTS:
+                        sl = SLOTS[0]
+                    was = att[(h, sl)]
+                    n1, n2 = op['n1'] % len(pool), op['n2'] % len(pool)
+                    if (variant == 'deep') != (h != 'P') or was is None or (h != 'P' and h not in reachable()):
+                        continue
+                    if any(m_.get('async') or m_.get('own') for m_ in cfg['methods']) or \
+                            any('.' not in d or d.endswith('param') for m_ in cfg['methods'] for d in m_['deps']):
+                        continue
+                    if len({n1, n2, was}) < 3 or h in (n1, n2) or n1 in reachable() or n2 in reachable() or \
+                            (h != 'P' and (h in reachable(n1) or h in reachable(n2))):
+                        continue
+                    used_ = [d.split('.')[-1] for m_ in cfg['methods'] for d in m_['deps']]
+                    p_ = used_[op.get('pi', 0) % len(used_)]
+                    if not shape(n1, was, 'first' if variant == 'back' else 'equal') or not shape(n2, was, 'equal'):
+                        break
+                    if variant == 'back':
+                        p_ = used_[0]
+                    settle()
+                    del log[:]
+                    v0 = snapshot()
+                    with param.parameterized.batch_call_watchers(real(h)):
+                        setattr(real(h), sl, pool[n1])
+                        att[(h, sl)] = n1
+                        v1 = snapshot()
+                        if variant == 'back':
+                            newv = leaf[was][p_]
+                        else:
+                            counter[0] += 1
+                            newv = counter[0]
+                        setattr(pool[n1], p_, newv)
+                        leaf[n1][p_] = newv
+                        v2 = snapshot()
+                        if variant == 'mid':
+                            setattr(real(h), sl, pool[n2])
+                            att[(h, sl)] = n2
+                        v3 = snapshot()
+                    settle()
+                    got = list(log)
+                    del log[:]
+                    ever_attached.update((n1, n2) if variant == 'mid' else (n1,))
+                    desc = (f"batch on {h}: attach N{n1} under {h}.{sl}, N{n1}.{p_} = {newv}" +
+                            (f", attach N{n2}" if variant == 'mid' else '') + f" ({variant})")
+                    out.log.append(f"{step} {desc} -> calls {got}")
+                    out.stats['op.batch_leaf'] += 1
+                    out.stats['probe.leaf_of_newly_attached_object_set_inside_the_batch.' + variant] += 1
+                    for mi, m in enumerate(cfg['methods']):
+                        if any('UNRESOLVED' in v[mi] for v in (v0, v1, v2, v3)):
+                            out.stats['dontcare.path_unresolved'] += 1
+                            continue
+                        knows, want = v0[mi], 0
+                        if variant != 'deep' and v2[mi] != v1[mi]:
+                            want, knows = want + 1, v2[mi]
+                        if knows != v3[mi]:
+                            want += 1
+                        out.stats['decided_method_checks'] += 1
+                        if got.count(mi) != want:
+                            out.violations.append(('C07.fire' if got.count(mi) < want else 'C07.silent', step,
+                                                   f"{desc}: m{mi} depends on {m['deps']}; it saw {v0[mi]} before, the path showed {v1[mi]} after the "
+                                                   f"replacement, {v2[mi]} after the leaf assignment and {v3[mi]} at the end: {want} call(s) keep it "
+                                                   f"informed, it ran {got.count(mi)} times"))
+                            break
+                    if out.violations:
+                        break
+                    states.append(f"{sorted((str(h_), v) for h_, v in att.items() if v is not None)}|{k}")
+                    continue
                 elif k == 'subbatch':
                     # a leaf assignment made while the events of that sub-object are batched, followed - inside the same batch -
                     # by an attachment somewhere under the parent (which re-installs the parent's watchers)
